@@ -50,6 +50,7 @@ type c16KBState struct {
 	exists bool
 	stored int // checkpoint (store without load): 0 none, 1 taken and nothing changed since, 2 taken and the knowledge base changed afterwards
 	inst   int // an instance was created and executed in the middle of the history: 0 never, 1 and nothing changed since, 2 and the knowledge base changed afterwards
+	ckpt   map[string]string // rules in the last checkpoint stream (nil: none taken)
 }
 
 type c16State struct{ kbs []c16KBState }
@@ -60,6 +61,12 @@ func (s *c16State) clone() *c16State {
 		n := c16KBState{active: map[string]string{}, dirty: k.dirty, exists: k.exists, stored: k.stored, inst: k.inst}
 		for a, b := range k.active {
 			n.active[a] = b
+		}
+		if k.ckpt != nil {
+			n.ckpt = map[string]string{}
+			for a, b := range k.ckpt {
+				n.ckpt[a] = b
+			}
 		}
 		c.kbs = append(c.kbs, n)
 	}
@@ -74,7 +81,16 @@ func (s *c16State) key() string {
 			a = append(a, n+"="+t)
 		}
 		sort.Strings(a)
-		parts = append(parts, fmt.Sprintf("%v/%v/%v/%v/%s", k.exists, k.dirty, k.stored, k.inst, strings.Join(a, ",")))
+		ck := "-"
+		if k.ckpt != nil {
+			var c []string
+			for n, t := range k.ckpt {
+				c = append(c, n+"="+t)
+			}
+			sort.Strings(c)
+			ck = "[" + strings.Join(c, ",") + "]"
+		}
+		parts = append(parts, fmt.Sprintf("%v/%v/%v/%v/%s/%s", k.exists, k.dirty, k.stored, k.inst, strings.Join(a, ","), ck))
 	}
 	return strings.Join(parts, " | ")
 }
@@ -134,6 +150,21 @@ func (s *c16State) apply(o c16Op) (ns *c16State, wantErr bool) {
 		delete(k.active, o.arg)
 	case "store":
 		k.stored = 1
+		k.ckpt = map[string]string{}
+		for a, b := range k.active {
+			k.ckpt[a] = b
+		}
+	case "loadkeep":
+		// the checkpoint stream loaded with overwrite=false over the knowledge base that exists: refused, nothing changes
+		wantErr = true
+	case "loadover":
+		// ... with overwrite=true: the library entry becomes what the stream holds
+		k.active = map[string]string{}
+		for a, b := range k.ckpt {
+			k.active[a] = b
+		}
+		k.stored = 0
+		k.inst = 0
 	case "instantiate":
 		k.inst = 1
 	case "storeload":
@@ -207,6 +238,7 @@ func c16ActiveIDs(k c16KBState, without string) []string {
 func c16Replay(keys []c16KBKey, hist []c16Op) (*ast.KnowledgeLibrary, []error, error) {
 	lib := ast.NewKnowledgeLibrary()
 	errs := make([]error, len(hist))
+	streams := map[int][]byte{}
 	for i, o := range hist {
 		kk := keys[o.kb]
 		switch o.kind {
@@ -242,6 +274,13 @@ func c16Replay(keys []c16KBKey, hist []c16Op) (*ast.KnowledgeLibrary, []error, e
 			var buf bytes.Buffer
 			if err := lib.StoreKnowledgeBaseToWriter(&buf, kk.name, kk.ver); err != nil {
 				return lib, errs, fmt.Errorf("store: %w", err)
+			}
+			streams[o.kb] = buf.Bytes()
+		case "loadkeep":
+			_, errs[i] = lib.LoadKnowledgeBaseFromReader(bytes.NewReader(streams[o.kb]), false)
+		case "loadover":
+			if _, err := lib.LoadKnowledgeBaseFromReader(bytes.NewReader(streams[o.kb]), true); err != nil {
+				return lib, errs, fmt.Errorf("load (overwrite) of the checkpoint stream: %w", err)
 			}
 		case "instantiate":
 			// an instance is created and used in the MIDDLE of the history (whatever the library caches
@@ -301,6 +340,7 @@ func C16(rep *ev.Reporter, tier string) {
 			}
 			ops = append(ops, c16Op{"storeload", kb, ""})
 			ops = append(ops, c16Op{"store", kb, ""}) // checkpoint: store without loading
+			ops = append(ops, c16Op{"loadkeep", kb, ""}, c16Op{"loadover", kb, ""})
 			ops = append(ops, c16Op{"instantiate", kb, ""})
 		}
 		init := &c16State{}
@@ -327,6 +367,9 @@ func C16(rep *ev.Reporter, tier string) {
 						continue
 					}
 					if _, hasX := k.active["X"]; o.arg == "X2+BAD" && !hasX {
+						continue
+					}
+					if (o.kind == "loadkeep" || o.kind == "loadover") && k.ckpt == nil {
 						continue
 					}
 					jobs = append(jobs, job{n, o})
